@@ -8,5 +8,7 @@ CONSTANTS
   PopHead = FALSE
   MaxCalls = 100
   WakeCheck = TRUE
+  Tids <- TraceTids
+  GiveBack = TRUE
 CONSTRAINT Done
 CHECK_DEADLOCK FALSE
